@@ -27,6 +27,8 @@ let cmd = function
   | ["dispatch"; o; k; a] -> CDispatch (nat o, nat k, z_of_int (ios a))
   | ["emptyq"; o] -> CEmptyQ (nat o)
   | ["canprocess"; o] -> CCanProcess (nat o)
+  | ["guardbegin"; o; w] -> CGuardBegin (nat o, nat w)
+  | ["guardend"; o; w] -> CGuardEnd (nat o, nat w)
   | ["new"; d] -> CNew (nat d)
   | ["copyctor"; s; d] -> CCopyCtor (nat s, nat d)
   | ["movector"; s; d] -> CMoveCtor (nat s, nat d)
